@@ -597,7 +597,7 @@ func metaString(class string, salt int) string {
 	return class
 }
 
-func sameMap(a, b map[string]string) bool {
+func sameMapW(a, b map[string]string) bool {
 	if len(a) != len(b) {
 		return false
 	}
@@ -648,7 +648,7 @@ func (e *compatEngine) meta(raw []byte, r *wRec) {
 		var derr error
 		if p := guard(func() { got, derr = drpcmetadata.Decode(ob) }); p != nil {
 			e.violate("metadata old->new: current Decode panics", raw, map[string]any{"panic": fmt.Sprint(p)})
-		} else if derr != nil || !sameMap(got, md) {
+		} else if derr != nil || !sameMapW(got, md) {
 			e.violate("metadata old->new: current Decode of v0.0.17 Encode output is not the same map"+binNote, raw, map[string]any{"error": fmt.Sprint(derr), "entries": len(got)})
 		}
 	}
@@ -660,7 +660,7 @@ func (e *compatEngine) meta(raw []byte, r *wRec) {
 			e.violate("metadata new->old: v0.0.17 Decode panics", raw, map[string]any{"panic": fmt.Sprint(p)})
 		} else if derr != nil {
 			e.violate("metadata new->old: v0.0.17 Decode rejects the output of the current Encode"+binNote, raw, map[string]any{"error": fmt.Sprint(derr), "classes": classes})
-		} else if !sameMap(got, md) {
+		} else if !sameMapW(got, md) {
 			e.violate("metadata new->old: v0.0.17 Decode of current Encode output is not the same map"+binNote, raw, map[string]any{"entries": len(got)})
 		}
 	} else if m.OldEncodes {
@@ -966,7 +966,7 @@ func (e *compatEngine) ops(raw []byte, r *wRec) {
 		switch o.Op {
 		case "metadata":
 			got, err := oldmd.Decode(fr.Data)
-			if err != nil || !sameMap(got, md) {
+			if err != nil || !sameMapW(got, md) {
 				e.violate("Invoke: the metadata packet is not decoded to the same map by v0.0.17", raw, map[string]any{"error": fmt.Sprint(err)})
 				return
 			}
